@@ -236,6 +236,38 @@ KIND_OF = {stat.S_IFREG: "f", stat.S_IFDIR: "d", stat.S_IFLNK: "l", stat.S_IFIFO
 
 
 TZ_OFFSETS = {"UTC": 0, "<+03>-3": 10800, "<-0530>5:30": -19800}
+# zones with daylight saving time, as POSIX rules (no tzdata needed): the offset depends on the instant
+DST_ZONES = ["CET-1CEST,M3.5.0,M10.5.0/3", "EST5EDT,M3.2.0,M11.1.0", "<+1030>-10:30<+11>-11,M10.1.0,M4.1.0"]
+_TZ_CACHE = {}
+
+
+def tz_off(tz, t):
+    """seconds east of UTC in zone `tz` at the instant `t` (glibc's reading of the POSIX rule)"""
+    if tz in TZ_OFFSETS:
+        return TZ_OFFSETS[tz]
+    k = (tz, int(t))
+    if k not in _TZ_CACHE:
+        old = os.environ.get("TZ")
+        os.environ["TZ"] = tz
+        time.tzset()
+        try:
+            _TZ_CACHE[k] = time.localtime(int(t)).tm_gmtoff
+        finally:
+            if old is None:
+                del os.environ["TZ"]
+            else:
+                os.environ["TZ"] = old
+            time.tzset()
+    return _TZ_CACHE[k]
+
+
+def instants_of_local(tz, local):
+    """the instants whose local wall-clock reading in `tz` is `local` seconds (0, 1 or 2 of them)"""
+    out = []
+    for o in sorted({tz_off(tz, local - 14 * 3600), tz_off(tz, local + 14 * 3600), tz_off(tz, local)}):
+        if tz_off(tz, local - o) == o and local - o not in out:
+            out.append(local - o)
+    return out
 
 
 def _user(uid):
@@ -420,7 +452,8 @@ def days_from_civil(y, m, d):
     return (datetime.date(y, m, d) - datetime.date(1970, 1, 1)).days
 
 
-def node_line(n, tzoff):
+def node_line(n, tz):
+    tzoff = tz_off(tz, n["mtime"])
     from common import hx
     f = n["facts"]
     fields = [str(n["depth"]), hx(n["name"]), n["kind"], str(n["size"]), str(n["mode"]), str(n["uid"]), str(n["gid"]),
@@ -463,15 +496,14 @@ def node_line(n, tzoff):
 
 def send_snapshot(model, root, top, nodes, cwd, tz="UTC"):
     from common import hx
-    tzoff = TZ_OFFSETS[tz]
     r = model.ask_raw("fs-begin\t%s\t%s" % (hx(os.path.realpath(root)), hx(os.path.realpath(cwd))))
     if r != "ok":
         return False
     for n in nodes:
-        if model.ask_raw("node\t" + node_line(n, tzoff)) != "ok":
+        if model.ask_raw("node\t" + node_line(n, tz)) != "ok":
             return False
-    return model.ask_raw("fs-end\t" + node_line(top, tzoff)) == "ok"
+    return model.ask_raw("fs-end\t" + node_line(top, tz)) == "ok"
 
 
 def model_today(tz="UTC"):
-    return int((time.time() + TZ_OFFSETS[tz]) // 86400)
+    return int((time.time() + tz_off(tz, time.time())) // 86400)
